@@ -187,6 +187,13 @@ func init() {
 			for _, sc := range FamilySharp(tier) {
 				items = append(items, explore("C08", sc, b, true))
 			}
+			// a continuous-check run in flight when its scope fails by another route: the terminal state must still
+			// be the last thing written before the waiter is released
+			for _, sc := range FamilyCont(tier) {
+				if strings.HasPrefix(sc.Name, "cont-min-") {
+					items = append(items, exploreCap("C08", sc, b, true, 60))
+				}
+			}
 			return items
 		},
 	})
